@@ -178,6 +178,7 @@ func C06(c *core.Ctx) {
 			letter{"R1closefail", func(r *rand.Rand, cf ccfg) cop { return cop{kind: "R", dialOK: true, closeErr: true, wfault: -1} }},
 			letter{"R0closefail", func(r *rand.Rand, cf ccfg) cop { return cop{kind: "R", dialOK: false, closeErr: true, wfault: -1} }})
 		historySweep(c, "c06", alphabet, c.N(3, 4), c.N(300, 6000), c.N(7, 9))
+		c06PingWriteFails(c)
 	}
 	// concurrent callers: a send racing the calls that end or replace the session, a handshake racing a
 	// Reconnect (the flag must belong to the session the handshake ran on)
@@ -242,4 +243,45 @@ func C06(c *core.Ctx) {
 		c.Sample(map[string]interface{}{"configuration": cfn.name, "schedules": n})
 	}
 	c.Extra("concurrent_schedules", total)
+}
+
+// c06PingWriteFails: the handshake's own write (the PING) meets a connection fault after n bytes, for every n: the
+// handshake fails, the session stays outside the transport phase, and no event data is written afterwards --
+// whatever the peer would have answered (the scripted PONG is the honest one).
+func c06PingWriteFails(c *core.Ctx) {
+	r := c.Rng
+	cf := ccfg{key: []byte("k3y"), host: []byte("h")}
+	probe := runClientOps(cf, []cop{{kind: "C", dialOK: true, wfault: -1}, handshakeOp(rand.New(rand.NewSource(1)), cf, true)})
+	pingLen := 0
+	for _, ev := range probe[1].events {
+		if f := strings.Split(ev, ":"); f[0] == "w" && len(f) > 2 {
+			pingLen = len(f[2]) / 2
+		}
+	}
+	if probe[1].ret != "ok" || pingLen == 0 {
+		c.Violation("judge-go", "c06-ping-write", "an honest handshake without faults did not succeed", nil)
+		return
+	}
+	for n := 0; n < pingLen; n += 1 + r.Intn(3) {
+		h := handshakeOp(rand.New(rand.NewSource(1)), cf, true)
+		h.wfault = n
+		m, enc, ch := smallMessage(r, cf, "c1")
+		ops := []cop{{kind: "C", dialOK: true, wfault: -1}, h, {kind: "T", wfault: -1}, {kind: "S", msg: m, enc: enc, chunk: ch, wfault: -1}, {kind: "W", raw: []byte{0x93, 1, 0xc0}, wfault: -1}}
+		rs := runClientOps(cf, ops)
+		c.Eval()
+		c.Hist("PING write fails after n bytes")
+		replay := map[string]interface{}{"ping_bytes_accepted": n, "ping_length": pingLen, "results": renderResults(rs)}
+		if rs[1].ret == "ok" || rs[2].ret != "false" {
+			c.Violation("judge-go", "c06-ping-write", fmt.Sprintf("the PING write failed after %d of %d bytes: Handshake returned %s, TransportPhase %s", n, pingLen, rs[1].ret, rs[2].ret), replay)
+		}
+		for i := 3; i <= 4; i++ {
+			wrote := false
+			for _, ev := range rs[i].events {
+				wrote = wrote || strings.HasPrefix(ev, "w:")
+			}
+			if rs[i].ret == "ok" || wrote {
+				c.Violation("judge-go", "c06-unauthenticated-write", fmt.Sprintf("after a handshake whose PING write failed (%d of %d bytes) a send returned %s and wrote: %v", n, pingLen, rs[i].ret, wrote), replay)
+			}
+		}
+	}
 }
